@@ -31,8 +31,9 @@ Proof. exact dvar_spec. Qed.
    same bytes: for every well-formed schema outside the classes of F7 (a nullable payload
    directly under Option) and F8 (duplicate field names in one struct body), i.e. reenc_scope,
    and every JSON value as serde_json can hold one (json_wf: finite floats, UTF-8 strings,
-   object keys strictly ascending, at most 65536 entries per array or object: beyond that the
-   decoder's loop is the one of F9).  The host's float conversions enter through the three
+   object keys strictly ascending, at most 65536 elements per array: beyond that the decoder's
+   loop is the one of F9; objects of any size, every map entry starts with its key's length
+   prefix).  The host's float conversions enter through the three
    hypotheses (widening f32 to f64 and back is exact; results are bit patterns; integers
    convert to finite doubles); the schema may have any depth and size *)
 Theorem C18_reencode : forall int_to_f64 narrow widen,
